@@ -3,13 +3,32 @@
 stays valid while checks are added)."""
 import json, sys
 
+NOTE = "go/packages+go/ssa lowering, the engine's instruction semantics and intrinsics (math/big over SMT Int, bytealg leaves, fmt.Errorf/errors.Is identity model, sync/atomic as memory, reflect subset + mapstructure.Decode model), z3 4.8.12 (cvc5 1.0.3 --solve-bv-as-int for multiplication-heavy queries); world stubs and node assumptions of DESIGN.md §4; solver models of passing paths are replayed natively (traces_validated_against_impl) and every reported violation is reproduced natively first."
+def claim(text, ref):
+    return (text, NOTE, ref)
 CLAIMED = {
- # id: (level text, level note, design ref)
- "C20": ("Every helper law is an SMT query over symbolic inputs executed through the real go/ssa of codeMetadata.go, address.go, gasCost.go, output.go and esdtMetaData.go: all 65 536 byte pairs per codec in one query each, every address length 0..40 with all byte values symbolic, all 2^128 (a,b) pairs of SafeSubUint64. Bounded only by the stated lengths.",
-         "go/ssa lowering + engine instruction semantics + z3; passing paths are replayed natively (see evidence.traces_validated_against_impl).", "DESIGN.md §5 C20"),
+ "C01": claim("Send, deliver and refund steps of ESDTTransfer / ESDTNFTTransfer / MultiESDTNFTTransfer are executed symbolically from an arbitrary Inv-world: per-key sender debit = destination credit = quantity carried by the emitted message (parsed by the real call-args parser), frame over the complete write log; histories by induction on the step invariant. Bounded by token-id/nonce/amount lengths and k<=2.", "DESIGN.md §5 C01, §14"),
+ "C02": claim("One symbolic step of every non-transfer built-in against the supply table: exact delta with unbounded (Int) balances, non-negativity, overdraft only when amount > holding, no balance change elsewhere.", "DESIGN.md §5 C02"),
+ "C03": claim("Role-gated, system-only, owner-only and DNS-only functions run with the real role handler over symbolic role cells / callers: success implies the specific authority, rejection implies an empty write log.", "DESIGN.md §5 C03"),
+ "C04": claim("Every balance-writing step from pre-states with symbolic frozen bit and pause flag (read through the real esdtPause): no non-exempt write changes value or metadata of a frozen/paused entry; freeze/unfreeze and pause/unpause round trips.", "DESIGN.md §5 C04"),
+ "C05": claim("SaveKeyValue with symbolic keys (all prefix relations to ELROND) and the write-log footprint of the other 22 functions against the key set derived from the input.", "DESIGN.md §5 C05"),
+ "C06": claim("GasProvided and all 22 schedule entries as bit-vectors with wrap-around semantics: GasRemaining + forwarded <= GasProvided without carry on every successful path of every function, under-funded calls fail or consume all.", "DESIGN.md §5 C06"),
+ "C07": claim("One symbolic step of ESDTNFTCreate and of the create-role hand-over (current owner, next owner, repeated delivery) against the counter invariant; histories by induction.", "DESIGN.md §5 C07"),
+ "C08": claim("NFTCreate stores exactly the given metadata; one same-shard / cross-shard / multi hop leaves metadata equal (deep equality term); hash mismatch rejected; AddURI/UpdateAttributes change only their field. Abstract codec, whose contract C14 discharges on the generated code.", "DESIGN.md §5 C08"),
+ "C09": claim("All five credit sites with a symbolic payability oracle, call type, caller and argument count around the attached-call threshold: credit implies oracle said payable or an exemption; metachain/self/length guards.", "DESIGN.md §5 C09"),
+ "C10": claim("Every emitter's data string goes through the real tokenizer/hex decoder and must parse to what was encoded; the ESDT-transfer parser's report is compared with the write log's debits/credits on both sides.", "DESIGN.md §5 C10"),
+ "C11": claim("All 23 ProcessBuiltinFunction with adversarial argument counts/lengths: every implicit Go panic site (nil deref, bounds, makeslice, division) is a solver query; make() sizes are checked against the input size; result shape.", "DESIGN.md §5 C11"),
+ "C12": claim("The four parsers on arbitrary byte strings (all 256 values per position) and builder->parser round trips with symbolic names/arguments.", "DESIGN.md §5 C12"),
+ "C13": claim("Engine-side write monitor over the whole input object graph (spare capacity included) and the function object's own state, plus two-run self-composition on the reset world with the same function object.", "DESIGN.md §5 C13"),
+ "C14": claim("BigIntCaster and the generated Marshal/Size/Unmarshal executed from source against an in-harness reference encoder; decoders on arbitrary buffers; varint kernel over all 64-bit values.", "DESIGN.md §5 C14"),
+ "C15": claim("Inv asserted on every logged write of every function (assumed on every generated cell): induction over histories.", "DESIGN.md §5 C15"),
+ "C16": claim("Object built with arbitrary prices, SetNewGasConfig(g) with 22 independent symbolic entries, then one funded call: consumed gas equals that function's own formula.", "DESIGN.md §5 C16"),
+ "C17": claim("Every stub call takes a fresh symbolic fault bit: any consumed fault implies (nil, error).", "DESIGN.md §5 C17"),
+ "C18": claim("EpochConfirmed from an arbitrary reachable flag state with symbolic 32-bit epoch/activation; the production factory executed (reflect subset + modelled mapstructure.Decode): exactly 23 names, each bound by behaviour.", "DESIGN.md §5 C18"),
+ "C20": claim("Every helper law is an SMT query over symbolic inputs executed through the real go/ssa of codeMetadata.go, address.go, gasCost.go, output.go and esdtMetaData.go.", "DESIGN.md §5 C20"),
 }
 
-NOT_YET = {}
+NOT_YET = {"C19": "in progress: lock-discipline monitor and 2-goroutine scheduler of DESIGN.md §5 C19 not built yet; not claimed until they run clean"}
 
 ALL = ["C%02d" % i for i in range(1, 21)]
 
